@@ -77,14 +77,14 @@ def gen_gomod():
         open(ps, "w").write(sums)
 
 
-def build_harness(race=False):
+def build_harness(race=False, pkg="vh"):
     os.makedirs(BUILD, exist_ok=True)
     gen_gomod()
-    out = os.path.join(BUILD, "vh-race" if race else "vh")
+    out = os.path.join(BUILD, pkg + ("-race" if race else ""))
     cmd = ["go", "build", "-tags", "verif", "-o", out]
     if race:
         cmd.insert(2, "-race")
-    cmd.append("./cmd/vh")
+    cmd.append("./cmd/" + pkg)
     t0 = time.time()
     p = subprocess.run(cmd, cwd=HARNESS, env=goenv(), capture_output=True, text=True)
     if p.returncode != 0:
@@ -119,7 +119,7 @@ class Ctx:
                     "tlc_runs": [], "bounds": {}, "exhaustive": False}
         self.assumptions = []
         self.notes = []
-        self.vh_bin = None
+        self.bins = {}
         self.thorough = tier == "thorough"
 
     # ---------------------------------------------------------------- TLC
@@ -227,19 +227,17 @@ class Ctx:
         return out
 
     # ------------------------------------------------------------- harness
-    def build(self, race=False):
-        b, w = build_harness(race)
-        if race:
-            return b
-        self.vh_bin = b
-        self.cov["harness_build_s"] = round(w, 1)
-        return b
+    def build(self, race=False, pkg="vh"):
+        key = (pkg, race)
+        if key not in self.bins:
+            b, w = build_harness(race, pkg)
+            self.bins[key] = b
+            self.cov["harness_build_s"] = round(self.cov.get("harness_build_s", 0) + w, 1)
+        return self.bins[key]
 
-    def vh(self, sub, args=None, stdin=None, timeout=3600, race=False, env=None):
-        """Run a harness subcommand; returns parsed JSON report (dict)."""
-        if not self.vh_bin:
-            self.build()
-        b = self.vh_bin if not race else self.build(race=True)
+    def vh(self, sub, args=None, stdin=None, timeout=3600, race=False, env=None, pkg="vh"):
+        """Run a harness subcommand of harness/cmd/<pkg>; returns parsed JSON report (dict)."""
+        b = self.build(race=race, pkg=pkg)
         cmd = [b, sub] + [str(a) for a in (args or [])]
         e = goenv()
         e["VERIF_SEED"] = str(self.seed)
